@@ -100,7 +100,7 @@ func Execute(env *univ.Env, plan univ.Plan, doc *ast.QueryDocument, opName strin
 	case ast.Mutation:
 		rootName = x.sch.Mutation.Name
 	default:
-		x.res.RequestError = "subscriptions are executed per event; use ExecuteEvent"
+		x.res.RequestError = "subscriptions are executed per event; use ExecuteSubscription"
 		return x.res
 	}
 	// operation-level directives (outermost = last applied, as for fields)
@@ -888,4 +888,75 @@ func (x *exec) jsonValue(v any, t *ast.Type, path []any) (any, *coerceErr) {
 		return f, nil
 	}
 	return v, nil
+}
+
+// ExecuteSubscription models a subscription operation: the single root field's resolver yields a
+// stream of n events (the universal resolver's StreamCount, default 3); each event is completed
+// like a query result for that field. It returns one Result per expected payload. When the
+// subscribe-time resolver fails there is exactly one payload carrying only that error.
+func ExecuteSubscription(env *univ.Env, plan univ.Plan, doc *ast.QueryDocument, opName string, rawVars map[string]any, opts Options, events int) []*Result {
+	x := &exec{env: env, plan: plan, doc: doc, opts: opts, res: &Result{}, sch: env.Schema}
+	var op *ast.OperationDefinition
+	for _, o := range doc.Operations {
+		if opName == "" || o.Name == opName {
+			op = o
+			break
+		}
+	}
+	if op == nil || op.Operation != ast.Subscription || x.sch.Subscription == nil {
+		x.res.RequestError = "not a subscription"
+		return []*Result{x.res}
+	}
+	vars, err := x.coerceVariables(op, rawVars)
+	if err != nil {
+		x.res.RequestError = err.Error()
+		return []*Result{x.res}
+	}
+	x.vars = vars
+	root := x.sch.Subscription
+	var groups []*fieldGroup
+	x.collect(root, op.SelectionSet, map[string]bool{}, &groups)
+	if len(groups) != 1 {
+		x.res.RequestError = "must subscribe to exactly one stream"
+		return []*Result{x.res}
+	}
+	g := groups[0]
+	fdef := root.Fields.ForName(g.nodes[0].Name)
+	path := pathT{g.key}
+	args, aerr := x.arguments(fdef, g.nodes[0], path)
+	if aerr != nil {
+		x.res.Errors = append(x.res.Errors, *aerr)
+		x.finish()
+		return []*Result{x.res}
+	}
+	argsJSON := univ.CanonJSON(args)
+	k := univ.Key{Object: root.Name, Vid: "root:" + root.Name, Field: fdef.Name, Args: argsJSON}
+	x.res.Invocations = append(x.res.Invocations, k.String())
+	switch plan.Fault(k) {
+	case univ.FaultError:
+		x.addErr(path, "resolver:"+univ.ErrText(k))
+		x.finish()
+		return []*Result{x.res}
+	case univ.FaultPanic:
+		x.addErr(path, "panic:"+univ.PanicText(k))
+		x.finish()
+		return []*Result{x.res}
+	}
+	var sel ast.SelectionSet
+	for _, n := range g.nodes {
+		sel = append(sel, n.SelectionSet...)
+	}
+	rt := env.ResultTypes[root.Name+"."+fdef.Name]
+	var out []*Result
+	for i := 0; i < events; i++ {
+		ex := &exec{env: env, plan: plan, doc: doc, opts: opts, res: &Result{}, sch: env.Schema, vars: vars}
+		val := env.Value(plan, k, "#"+strconv.Itoa(i), fdef.Type, rt)
+		v, ok := ex.complete(fdef.Type, val, sel, path, 0)
+		data := sjson.O().Set(g.key, v)
+		_ = ok // the event payload always carries the field, null when it failed
+		ex.res.Data = data
+		ex.finish()
+		out = append(out, ex.res)
+	}
+	return out
 }
